@@ -176,9 +176,9 @@ def rand_op(rng, k, kind):
 # ---------------------------------------------------------------------------
 
 class Case:
-    __slots__ = ('op', 'impl', 'oracle', 'approx', 'key', 'ntkey', 'replay', 'value', 'soft', 'alias', 'tol')
+    __slots__ = ('op', 'impl', 'oracle', 'approx', 'key', 'ntkey', 'replay', 'value', 'soft', 'alias', 'tol', 'must_raise')
 
-    def __init__(self, op, impl, oracle=None, approx=False, key='', ntkey=None, replay=None, soft=False):
+    def __init__(self, op, impl, oracle=None, approx=False, key='', ntkey=None, replay=None, soft=False, must_raise=None):
         self.op, self.impl, self.oracle, self.approx, self.key, self.ntkey, self.replay = op, impl, oracle, approx, key, ntkey, replay
         self.value = None
         # soft: a tie of the literal model to an internal helper (not part of the property's public behaviour): a mismatch is
@@ -186,6 +186,9 @@ class Case:
         self.soft = soft
         self.tol = None       # comparison tolerance when not the default (single-precision argument forms)
         self.alias = None     # what went wrong with the arguments / repeated call (see run_case)
+        # must_raise: why the documented behaviour on this input is to raise (model-independent oracle of the refusal ties): the probe
+        # fails, with this input as the failing input, when the routine returns a value instead
+        self.must_raise = must_raise
 
 
 def S():
@@ -537,7 +540,10 @@ def make_step(rng, n, name):
         k = int(rng.integers(1, min(n - 1, 2) + 1))
         nc = int(rng.integers(1, n - k + 1))
         q = pick_targets(rng, n, k + nc)
-        return (name, rand_op(rng, k, 'unitary'), q[k:], q[:k])
+        ctrl = q[k:]
+        if name == 'append_c' and rng.integers(0, 6) == 0:
+            ctrl = ctrl + (ctrl[0],)            # a repeated control index: append_gate stores the controls as a set (circuit.py:148)
+        return (name, rand_op(rng, k, 'unitary'), ctrl, q[:k])
     if name == 'myf':
         return (name, rand_int_unitary(rng, 2 ** n))
     if name in ('rx', 'ry', 'rz', 'rxP', 'ryP'):
@@ -551,7 +557,10 @@ def make_step(rng, n, name):
         nc = int(rng.integers(1, n))
         q = pick_targets(rng, n, nc + 1)
         args = (float(rng.uniform(-4, 4)),) if name != 'cu3' else tuple(float(x) for x in rng.uniform(-4, 4, size=3))
-        return (name, q[:nc], (q[nc],), args)
+        ctrl = q[:nc]
+        if rng.integers(0, 6) == 0:
+            ctrl = ctrl + (ctrl[int(rng.integers(0, nc))],)     # a repeated control index collapses (`set(...)`, circuit.py:90)
+        return (name, ctrl, (q[nc],), args)
     raise RuntimeError('unknown gate ' + name)
 
 
@@ -642,7 +651,7 @@ class CircuitBuilder:
         elif name == 'kraus':
             obj = getattr(circ, st[1])(st[2], st[3])          # dephasing / depolarizing / amplitude_damping: Kraus entries
         elif name == 'unsetP':
-            obj = getattr(circ, st[1])(st[2][0], circ.P['never_set'])   # placeholder whose parameter is never supplied
+            obj = getattr(circ, st[1])(st[2][0] if len(st[2]) == 1 else tuple(st[2]), circ.P['never_set'])   # placeholder whose parameter is never supplied
         elif name == 'shift':
             circ.shift_qubit_index_(st[1])
         elif name == 'extend':
@@ -800,8 +809,10 @@ def step_semantics(st):
         return program_semantics(st[1])
     if name == 'measure':
         return [('m', tuple(st[1]))]
-    if name in ('kraus', 'unsetP'):
-        return [('n',)]
+    if name == 'kraus':
+        return [('n', 'k', ())]            # not canonical: invisible to num_qubit and shift_qubit_index_
+    if name == 'unsetP':
+        return [('n', 'p', tuple(int(q) for q in st[2]))]    # a canonical unitary entry at its index, without array
     raise RuntimeError('unknown step ' + name)
 
 
@@ -826,7 +837,7 @@ def program_text(sem, enc):
         elif x[0] == 'm':
             out.append(f'm:{idx_str(x[1])}:{"0" * len(x[1])}')
         elif x[0] == 'n':
-            out.append('n')
+            out.append('n:k' if x[1] == 'k' else f'n:p:{idx_str(x[2])}')
     return '|'.join(out) if out else '-'
 
 
@@ -885,7 +896,18 @@ def program_width(sem):
             idx += list(x[2]) + list(x[3])
         elif x[0] == 'm':
             idx += list(x[1])
+        elif x[0] == 'n' and x[1] == 'p':
+            idx += list(x[2])
     return (max(idx) + 1) if idx else 0
+
+
+def program_num_qubit(sem):
+    """Circuit.num_qubit as documented (circuit.py:454-466): 1 + the largest index over the canonical entries (unitary, control,
+    measure — a never-set placeholder is a canonical unitary entry; custom and Kraus entries do not count), at least 1; an
+    empty gate list has no width"""
+    if not any(x[0] != 's' for x in sem):
+        return 'error'
+    return str(max(program_width(sem), 1))
 
 
 def program_min_index(sem):
@@ -897,6 +919,8 @@ def program_min_index(sem):
             idx += list(x[2])
         elif x[0] == 'c':
             idx += list(x[2]) + list(x[3])
+        elif x[0] == 'n' and x[1] == 'p':
+            idx += list(x[2])
     return min(idx) if idx else 0
 
 
@@ -963,25 +987,44 @@ def circuit_cases(ctx, rng):
         text = steps_text(steps, enc_z)
         desc = describe(steps)
         cases.append(Case(f'C03 unitary Z {text}', (lambda steps=steps: build_circuit(steps).to_unitary()), None, key='Circuit.to_unitary(measure)',
-                          ntkey=('unitary-measure', it), replay=dict(fn='Circuit.to_unitary', program=repr(desc))))
+                          ntkey=('unitary-measure', it), replay=dict(fn='Circuit.to_unitary', program=repr(desc)),
+                          must_raise='a circuit holding a MeasureGate has no unitary (circuit.py:445)'))
         cases.append(Case(f'C03 width Z {text}', (lambda steps=steps: str(int(build_circuit(steps).num_qubit))),
-                          (lambda sem=sem: str(program_width(sem))), key='Circuit.num_qubit', ntkey=('width-measure', it),
+                          (lambda sem=sem: program_num_qubit(sem)), key='Circuit.num_qubit', ntkey=('width-measure', it),
                           replay=dict(fn='Circuit.num_qubit', program=repr(desc))))
-    # entries apply_state refuses: a placeholder gate never given a value (circuit.py:497-498), Kraus entries (:509)
-    for it in range(12 if ctx.quick() else 80):
+    # entries apply_state refuses: a placeholder gate never given a value (circuit.py:497-498), Kraus entries (:509).  They stay in
+    # gate_index_list: num_qubit counts the placeholder entry at its index and skips the Kraus entry, a later shift moves the former
+    for it in range(16 if ctx.quick() else 100):
         n0 = int(rng.integers(1, 4))
         steps = gen_program(rng, n0, int(rng.integers(0, 4)), integer_only=True, allow_custom=False)
-        q = int(rng.integers(0, n0))
-        bad = [('unsetP', 'rx', (q,)), ('unsetP', 'u3', (q,)), ('kraus', 'dephasing', q, (0.1,)), ('kraus', 'depolarizing', q, (0.2,)),
-               ('kraus', 'amplitude_damping', q, (0.3,))][int(rng.integers(0, 5))]
+        hi = n0 + int(rng.integers(0, 3))           # the refused entry may be the one that reaches the top qubit
+        q = int(rng.integers(0, hi))
+        bad = [('unsetP', 'rx', (q,)), ('unsetP', 'u3', (q,)), ('unsetP', 'rzz', (q, q + 1)), ('kraus', 'dephasing', q, (0.1,)),
+               ('kraus', 'depolarizing', q, (0.2,)), ('kraus', 'amplitude_damping', q, (0.3,))][int(rng.integers(0, 6))]
         steps.insert(int(rng.integers(0, len(steps) + 1)), bad)
-        psi = rand_gi(rng, 2 ** n0, -2, 2)
+        if rng.integers(0, 3) == 0:
+            steps.append(('shift', int(rng.integers(1, 3))))
+        sem = program_semantics(steps)
+        nq = max(program_width(sem), 1)
+        if nq > 6:
+            continue
+        psi = rand_gi(rng, 2 ** nq, -2, 2)
         text = steps_text(steps, enc_z)
         desc = describe(steps)
-        cases.append(Case(f'C03 circ Z {n0} {text} {enc_z(psi)}', (lambda steps=steps, psi=psi: build_circuit(steps).apply_state(psi)), None,
-                          key='Circuit.apply_state(refused entry)', ntkey=('refused', bad[0], bad[1], it), replay=dict(fn='Circuit.apply_state', program=repr(desc))))
+        why = ('a parametrised gate whose placeholder was never set cannot be applied (circuit.py:497-498)' if bad[0] == 'unsetP'
+               else 'apply_state supports the kinds unitary/control/measure/custom only (circuit.py:509): a Kraus entry must be refused')
+        cases.append(Case(f'C03 circ Z {nq} {text} {enc_z(psi)}', (lambda steps=steps, psi=psi: build_circuit(steps).apply_state(psi)), None,
+                          key='Circuit.apply_state(refused entry)', ntkey=('refused', bad[0], bad[1], it),
+                          replay=dict(fn='Circuit.apply_state', n=nq, program=repr(desc), psi=repr(psi.tolist())), must_raise=why))
         cases.append(Case(f'C03 unitary Z {text}', (lambda steps=steps: build_circuit(steps).to_unitary()), None,
-                          key='Circuit.to_unitary(refused entry)', ntkey=('refused-unitary', bad[0], it), replay=dict(fn='Circuit.to_unitary', program=repr(desc))))
+                          key='Circuit.to_unitary(refused entry)', ntkey=('refused-unitary', bad[0], it), replay=dict(fn='Circuit.to_unitary', program=repr(desc)),
+                          must_raise=why))
+        cases.append(Case(f'C03 width Z {text}', (lambda steps=steps: str(int(build_circuit(steps).num_qubit))),
+                          (lambda sem=sem: program_num_qubit(sem)), key='Circuit.num_qubit', ntkey=('width-refused', bad[0], it),
+                          replay=dict(fn='Circuit.num_qubit', program=repr(desc))))
+        cases.append(Case(f'C03 indices Z {text}', (lambda steps=steps: index_list_of(build_circuit(steps))),
+                          (lambda sem=sem: intended_index_list(sem)), key='Circuit.gate_index_list', ntkey=('indices-refused', bad[0], it),
+                          replay=dict(fn='Circuit.gate_index_list', program=repr(desc))))
     # the same kind='custom' object applied twice (no shift: a custom gate is tied to the register width)
     for it in range(6 if ctx.quick() else 40):
         n0 = int(rng.integers(1, 4))
@@ -1165,7 +1208,11 @@ def intended_index_list(sem):
         elif x[0] == 'u':
             ent.append(('u', None, [int(q) for q in x[2]]))
         elif x[0] == 'c':
-            ent.append(('c', sorted(int(q) for q in x[2]), [int(q) for q in x[3]]))
+            ent.append(('c', sorted({int(q) for q in x[2]}), [int(q) for q in x[3]]))      # the controls are stored as a set
+        elif x[0] == 'm':
+            ent.append(('m', None, [int(q) for q in x[1]]))
+        elif x[0] == 'n' and x[1] == 'p':
+            ent.append(('u', None, [int(q) for q in x[2]]))
         else:
             ent.append(('x', None, None))
     return ent
@@ -1192,7 +1239,8 @@ def program_cases(rng, steps, sem, n, width, it, with_indices=False):
                               (lambda sem=sem, width=width: np.concatenate([[width], oracle_program_matrix(sem, width).reshape(-1)])),
                               approx=not is_int, key='Circuit.to_unitary', ntkey=('unitary', ring, width, kinds, it),
                               replay=dict(fn='Circuit.to_unitary', program=repr(desc))))
-        cases.append(Case(f'C03 width {ring} {text}', (lambda steps=steps: str(int(build_circuit(steps).num_qubit))), None,
+        cases.append(Case(f'C03 width {ring} {text}', (lambda steps=steps: str(int(build_circuit(steps).num_qubit))),
+                          (lambda sem=sem: program_num_qubit(sem)),
                           key='Circuit.num_qubit', ntkey=('width', kinds, it), replay=dict(fn='Circuit.num_qubit', program=repr(desc))))
         if with_indices:
             cases.append(Case(f'C03 indices {ring} {text}', (lambda steps=steps: index_list_of(build_circuit(steps))),
@@ -1271,13 +1319,7 @@ def vocabulary_cases(ctx, rng):
                           (lambda a=a: np.diag(np.asarray(G.rz(np.array([0.3, a]), diag_only=True), dtype=np.complex128)[1])), approx=True,
                           key='numqi.gate.rz(diag_only)', ntkey=('gatemat-diag-batched', a), replay=dict(fn='numqi.gate.rz', diag_only=True, args=[[0.3, a]])))
     # Circuit methods
-    def appended(call):
-        circ = numqi.sim.Circuit()
-        call(circ)
-        gate, index = circ.gate_index_list[-1]
-        if gate.kind == 'control':
-            return ('c', sorted(int(x) for x in index[0]), [int(x) for x in index[1]], np.asarray(gate.array, dtype=np.complex128))
-        return ('u', None, [int(x) for x in index], np.asarray(gate.array, dtype=np.complex128))
+    appended = appended_entry
     n = 5
     reps = 2 if ctx.quick() else 10
     for rep in range(reps):
@@ -1288,16 +1330,56 @@ def vocabulary_cases(ctx, rng):
         for name, qubits, args, call in table:
             is_int = name in ('X', 'Y', 'Z', 'S', 'Swap', 'cnot', 'cx', 'cy', 'cz', 'toffoli')
             enc = enc_z if is_int else enc_q
+            row = [r_[3] for r_ in table].index(call)
             cases.append(Case(f'C03 vocab {"Z" if is_int else "Q"} {name} {idx_str(qubits)} {enc_pairs(vocab_pairs(name, args), enc)}',
-                              (lambda call=call: appended(call)), approx=not is_int, key='Circuit-method-appends', ntkey=('vocab', name, rep, len(cases)),
-                              replay=dict(fn='Circuit.' + name, qubits=list(qubits), args=list(args))))
+                              (lambda call=call: appended(call)), (lambda name=name, qubits=qubits, args=args: vocab_expected(name, qubits, args)),
+                              approx=not is_int, key='Circuit-method-appends', ntkey=('vocab', name, rep, len(cases)),
+                              replay=dict(fn='Circuit.' + name, call=VOCAB_FORMS.get(row, 'explicit angles'), qubits=list(qubits), args=list(args),
+                                          table=dict(q=q, a1=a1, a3=list(a3), row=row))))
     return cases
 
 
+def appended_entry(call):
+    import numqi
+    circ = numqi.sim.Circuit()
+    call(circ)
+    gate, index = circ.gate_index_list[-1]
+    if gate.kind == 'control':
+        return ('c', sorted(int(x) for x in index[0]), [int(x) for x in index[1]], np.asarray(gate.array, dtype=np.complex128))
+    return ('u', None, [int(x) for x in index], np.asarray(gate.array, dtype=np.complex128))
+
+
+def vocab_expected(name, qubits, args):
+    """model-independent reading of a gate method: the entry it must leave in gate_index_list (kind, control set, targets, array from
+    the reference formulas of this file); `args=None` means angle zero, i.e. the identity (docstring `initialize to zero`)"""
+    qubits = [int(x) for x in qubits]
+    if name in REF:
+        return ('u', None, qubits, REF[name])
+    if name in CTRL_FIXED:
+        return ('c', sorted(set(qubits[:-1])), qubits[-1:], REF[CTRL_FIXED[name]])
+    if name in PARAM:
+        return ('u', None, qubits, PARAM[name][0](*args))
+    return ('c', sorted(set(qubits[:-1])), qubits[-1:], PARAM[name[1:]][0](*args))
+
+
+def vocab_mismatch(v, want):
+    if isinstance(v, str):
+        return 'the method raised'
+    if (v[0], v[1], v[2]) != (want[0], want[1], want[2]):
+        return f'appended entry is {(v[0], v[1], v[2])}, expected {(want[0], want[1], want[2])}'
+    if np.asarray(v[3]).shape != np.asarray(want[3]).shape or not close(v[3], want[3], 1e-12):
+        return f'gate array {np.asarray(v[3]).reshape(-1)[:4].tolist()}… differs from the reference {np.asarray(want[3]).reshape(-1)[:4].tolist()}…'
+    return ''
+
+
+# how the rows of vocab_table beyond the plain calls supply their arguments (for the failure message / replay file)
+VOCAB_FORMS = {}
+
+
 def vocab_table(q, a1, a3):
-    """(name, qubits, angles, call on a Circuit) for every gate method, the last three through the placeholder mechanism"""
-    if True:
-        return [
+    """(name, qubits, angles, call on a Circuit) for every gate method"""
+    groups = [
+        ('explicit angles', [
             ('X', q[:1], (), lambda c: c.X(q[0])), ('Y', q[:1], (), lambda c: c.Y(q[0])), ('Z', q[:1], (), lambda c: c.Z(q[0])),
             ('S', q[:1], (), lambda c: c.S(q[0])), ('H', q[:1], (), lambda c: c.H(q[0])), ('T', q[:1], (), lambda c: c.T(q[0])),
             ('Swap', q[:2], (), lambda c: c.Swap(q[0], q[1])),
@@ -1307,18 +1389,32 @@ def vocab_table(q, a1, a3):
             ('rx', q[:1], (a1,), lambda c: c.rx(q[0], a1)), ('ry', q[:1], (a1,), lambda c: c.ry(q[0], a1)), ('rz', q[:1], (a1,), lambda c: c.rz(q[0], a1)),
             ('u3', q[:1], a3, lambda c: c.u3(q[0], a3)), ('rzz', q[:2], (a1,), lambda c: c.rzz((q[0], q[1]), a1)),
             ('crx', q[:2], (a1,), lambda c: c.crx(q[0], q[1], a1)), ('cry', q[:2], (a1,), lambda c: c.cry(q[0], q[1], a1)),
-            ('crz', q[:2], (a1,), lambda c: c.crz(q[0], q[1], a1)), ('cu3', q[:2], a3, lambda c: c.cu3(q[0], q[1], a3)),
-            # `_control_parameter_gate` with several controls (circuit.py:82-96)
+            ('crz', q[:2], (a1,), lambda c: c.crz(q[0], q[1], a1)), ('cu3', q[:2], a3, lambda c: c.cu3(q[0], q[1], a3))]),
+        # `_control_parameter_gate` with several controls (circuit.py:82-96)
+        ('several controls', [
             ('crx', q[:3], (a1,), lambda c: c.crx((q[0], q[1]), q[2], a1)), ('cry', q[:4], (a1,), lambda c: c.cry((q[0], q[1], q[2]), q[3], a1)),
-            ('crz', q[:3], (a1,), lambda c: c.crz([q[0], q[1]], q[2], a1)), ('cu3', q[:4], a3, lambda c: c.cu3((q[0], q[1], q[2]), q[3], a3)),
-            # `args=None`: the angles are initialised to zero (circuit.py:71-72, 86-87)
+            ('crz', q[:3], (a1,), lambda c: c.crz([q[0], q[1]], q[2], a1)), ('cu3', q[:4], a3, lambda c: c.cu3((q[0], q[1], q[2]), q[3], a3))]),
+        # repeated control indices collapse: the entry holds the control *set* (circuit.py:90)
+        ('repeated control index', [
+            ('crx', [q[0], q[0], q[1]], (a1,), lambda c: c.crx((q[0], q[0]), q[1], a1)),
+            ('cu3', [q[0], q[1], q[0], q[2]], a3, lambda c: c.cu3([q[0], q[1], q[0]], q[2], a3))]),
+        # `args=None`: the angles are initialised to zero (circuit.py:71-72, 86-87)
+        ('args=None (angles initialised to zero)', [
             ('rx', q[:1], (0.0,), lambda c: c.rx(q[0])), ('ry', q[:1], (0.0,), lambda c: c.ry(q[0])), ('rz', q[:1], (0.0,), lambda c: c.rz(q[0])),
             ('u3', q[:1], (0.0, 0.0, 0.0), lambda c: c.u3(q[0])), ('rzz', q[:2], (0.0,), lambda c: c.rzz((q[0], q[1]))),
-            ('crx', q[:2], (0.0,), lambda c: c.crx(q[0], q[1])), ('cu3', q[:3], (0.0, 0.0, 0.0), lambda c: c.cu3((q[0], q[1]), q[2])),
-            # parameters supplied later through the placeholder mechanism
+            ('crx', q[:2], (0.0,), lambda c: c.crx(q[0], q[1])), ('cry', q[:2], (0.0,), lambda c: c.cry(q[0], q[1])),
+            ('crz', q[:2], (0.0,), lambda c: c.crz(q[0], q[1])), ('cu3', q[:3], (0.0, 0.0, 0.0), lambda c: c.cu3((q[0], q[1]), q[2]))]),
+        # parameters supplied later through the placeholder mechanism
+        ('placeholder + setP', [
             ('rx', q[:1], (a1,), lambda c: (c.rx(q[0], c.P['t']), c.setP(t=a1))), ('u3', q[:1], a3, lambda c: (c.u3(q[0], c.P['w']), c.setP(w=np.array(a3)))),
-            ('rz', q[:1], (a1,), lambda c: (c.rz(q[0], c.P[0]), c.setP([a1, 0.5]))),
-        ]
+            ('rz', q[:1], (a1,), lambda c: (c.rz(q[0], c.P[0]), c.setP([a1, 0.5])))]),
+    ]
+    out = []
+    for form, rows in groups:
+        for r_ in rows:
+            VOCAB_FORMS[len(out)] = form
+            out.append(r_)
+    return out
 
 
 def slice_cases(ctx, rng):
@@ -1866,10 +1962,25 @@ def probe(ctx):
     for c in cases:
         if c.alias:
             ctx.fail('aliasing:' + c.key, f'{c.key}: {c.alias}', dict(c.replay or {}, op=c.op[:300]))
+        if c.must_raise:
+            # refusal ties: the documented behaviour is to raise; a returned value is a failing input of its own
+            if isinstance(c.value, str):
+                ctx.probe_ok(('probe',) + tuple(c.ntkey))
+            else:
+                ctx.fail(c.key + ':returns', f'{c.key} returned a value where it must raise: {c.must_raise}',
+                         dict(c.replay or {}, must_raise=c.must_raise, observed=repr(np.asarray(c.value).reshape(-1)[:8].tolist())))
+            continue
         if c.oracle is None:
             continue
         want = c.oracle()
         v = c.value
+        if c.key == 'Circuit-method-appends':
+            bad = vocab_mismatch(v, want)
+            if bad:
+                ctx.fail(c.key, f"Circuit.{c.replay['fn'].split('.')[-1]}({c.replay['call']}): {bad}", dict(c.replay, observed=repr(v if isinstance(v, str) else (v[0], v[1], v[2], np.asarray(v[3]).tolist()))))
+            else:
+                ctx.probe_ok(('probe',) + tuple(c.ntkey))
+            continue
         if isinstance(v, str) and c.key != 'Circuit.num_qubit':
             ctx.fail(c.key + ':raises', f'{c.key} raised on a valid input', c.replay)
             continue
@@ -2077,6 +2188,32 @@ def replay(ctx, payload):
         for f in term:
             M = M @ oracle_embed(f[0], f[1:], n)
         want = np.vdot(psi0, M @ psi1).reshape(1)
+    elif fn.startswith('Circuit.') and 'table' in r:
+        t = r['table']
+        name, qubits, args, call = vocab_table(list(t['q']), t['a1'], tuple(t['a3']))[t['row']]
+        bad = vocab_mismatch(guarded(lambda: appended_entry(call)), vocab_expected(name, qubits, args))
+        print(f"replay: {fn} ({r.get('call')}) " + (f'still wrong: {bad}' if bad else 'now appends the documented entry'))
+        if bad:
+            print(f'VIOLATION property=C03 replay={_replay_path()}')
+        return 1 if bad else 0
+    elif fn in ('Circuit.apply_state', 'Circuit.to_unitary') and r.get('must_raise'):
+        steps = _steps_from_desc(eval(r['program'], {'__builtins__': {}}, {}))
+        if fn == 'Circuit.apply_state':
+            psi = _arr(r['psi']); got = guarded(lambda: build_circuit(steps).apply_state(psi))
+        else:
+            got = guarded(lambda: build_circuit(steps).to_unitary())
+        ok = isinstance(got, str)
+        print(f"replay: {fn} {'now raises' if ok else 'still returns a value'} on the recorded program ({r['must_raise']})")
+        if not ok:
+            print(f'VIOLATION property=C03 replay={_replay_path()}')
+        return 0 if ok else 1
+    elif fn == 'Circuit.num_qubit':
+        steps = _steps_from_desc(eval(r['program'], {'__builtins__': {}}, {}))
+        got = guarded(lambda: str(int(build_circuit(steps).num_qubit))); want = program_num_qubit(program_semantics(steps))
+        print(f"replay: Circuit.num_qubit is {got}, the canonical entries reach {want} qubits")
+        if got != want:
+            print(f'VIOLATION property=C03 replay={_replay_path()}')
+        return 0 if got == want else 1
     elif fn in ('Circuit.apply_state', 'Circuit.to_unitary', 'Circuit.gate_index_list'):
         steps = _steps_from_desc(eval(r['program'], {'__builtins__': {}}, {}))
         sem = step_semantics(('extend', steps)); approx = True
